@@ -5,8 +5,9 @@ import GohbaseVerif.Gen.Exits
 
 `sendBatch` (Model/Batch.lean) is the model of `(*client).SendBatch`: a function of the batch and of
 one `Round` per pass through the retry loop — what region location returns for each call, what is
-on each call's result channel when `waitForCompletion` looks at it, the map iteration order, and
-where the batch context is seen done. All of these are universally quantified below; a hypothesis
+on each call's result channel when `waitForCompletion` looks at it, the map iteration order,
+where the batch context is seen done, and which calls' own contexts the back-off sleep after the
+pass sees done (`gaveUp`). All of these are universally quantified below; a hypothesis
 `sendBatch … = .ok R` only says that SendBatch returns (it does not block forever on a call that
 never gets an answer while nobody cancels). The correspondence run (`harness/c07.go`, driver
 `c07`) ties the model to the Go code.
@@ -283,19 +284,196 @@ theorem own_ctx_round0_queue {info : Info} {batch : List Nat} {rd : Round} {rest
     · rfl
     · exact absurd (ownGone_locate hg) hn
 
+/-! ### The back-off sleep ends when nobody waits for the calls to be retried any more
+
+`rd.gaveUp c` = call `c` has a context of its own and the back-off sleep after this pass sees it done
+(`contextOfCalls` in rpc.go: the sleep runs under a context that is done when the batch context is
+done or when the own context of EVERY call about to be retried is done; a call without a context of
+its own keeps the sleep going to its end). -/
+
+/-- **Any pass, any state**: all calls of the pass are located (or failed alone by their own
+context), the batch context is not seen done, the pass has to back off for a non-zero time (a call
+answered with a `RetryableError`, or the third immediate retry in a row) and every call about to be
+retried has given up. Then `SendBatch` returns from inside the sleep: this pass's `QueueBatch`es are
+the last ones, `allOK = false`, and every call of the pass that was answered with an error — the
+ones that were going to be retried included — keeps exactly that error. -/
+theorem sleep_ends_when_all_retries_gave_up_pass {b0 : List Nat} {rd : Round} {rest : List Round}
+    {r : Nat} {batch : List Nat} {st : St} {R : Result}
+    (h : loop b0 (rd :: rest) r batch st = .ok R)
+    (hb : ∀ c ∈ batch, c ∈ b0) (hl : st.res.length = b0.length)
+    (hany : batch.any (fun c => !locOk rd c && !ownGone rd c) = false)
+    (hcancel : rd.cancel = .none)
+    (hbk : (∃ c ∈ liveCalls rd batch, isBackoff (rd.ans c) = true) ∨
+           (st.immediate > 1 ∧ ∃ c ∈ liveCalls rd batch, isRetry (rd.ans c) = true))
+    (hbo : st.backoff ≠ 0)
+    (hgone : ∀ c ∈ liveCalls rd batch, isRetry (rd.ans c) = true → rd.gaveUp c = true) :
+    R.events = st.events ++ queueEvents r rd (liveCalls rd batch) ++
+      [.sleepLeft (Gen.Backoff.sleepFor st.backoff)] ∧
+    R.allOK = false ∧ R.interrupted = false ∧
+    ∀ c ∈ liveCalls rd batch, ∀ cls t, rd.ans c = .fail cls t →
+      getSlot b0 R.res c = ⟨none, some (.ans cls t)⟩ := by
+  have hnd : ctxDoneAfterWait rd.cancel = false := by rw [hcancel]; rfl
+  have hns : rd.cancel ≠ .sleep := by rw [hcancel]; intro h'; cases h'
+  rcases loop_cons h with ⟨hany', _⟩ | ⟨_, a, ha, _⟩
+  · rw [hany] at hany'; cases hany'
+  · obtain ⟨pre, hmem, hint, hres, hretries, hnb, hallok⟩ := round_flat_uncut ha hnd
+    obtain ⟨c0, hc0, hr0⟩ : ∃ c ∈ liveCalls rd batch, isRetry (rd.ans c) = true := by
+      rcases hbk with ⟨c, hc, hbc⟩ | ⟨_, h'⟩
+      · exact ⟨c, hc, isBackoff_isRetry hbc⟩
+      · exact h'
+    have hret : a.retries ≠ [] := by
+      rw [hretries]; intro hnil
+      have : c0 ∈ pre.filter (fun c => isRetry (rd.ans c)) :=
+        List.mem_filter.mpr ⟨(hmem c0).mpr hc0, hr0⟩
+      rw [hnil] at this; cases this
+    have hneed : (a.needBackoff || decide (st.immediate > 1)) = true := by
+      rcases hbk with ⟨c, hc, hbc⟩ | ⟨hi, _⟩
+      · rw [hnb, List.any_eq_true.mpr ⟨c, (hmem c).mpr hc, hbc⟩]; rfl
+      · simp [hi]
+    have hall : a.retries.all rd.gaveUp = true := by
+      rw [hretries, List.all_eq_true]
+      intro c hc
+      obtain ⟨hcp, hcr⟩ := List.mem_filter.mp hc
+      exact hgone c ((hmem c).mp hcp) hcr
+    rcases loop_cons_sleep h hany ha hret hnd hneed hbo with ⟨hs, _⟩ | ⟨_, _, rfl⟩ | ⟨_, hg, _⟩
+    · exact absurd hs hns
+    · refine ⟨rfl, ?_, hint, ?_⟩
+      · show a.allOK = false
+        rw [hallok]
+        have : pre.all (fun c => isOkAns (rd.ans c)) = false := by
+          rw [List.all_eq_false]
+          refine ⟨c0, (hmem c0).mpr hc0, ?_⟩
+          cases hx : rd.ans c0 <;> simp_all [isRetry, isOkAns, Ans.isOk]
+        rw [this, Bool.and_false]
+      · intro c hc cls t hans
+        show getSlot b0 a.res c = _
+        rw [hres]
+        have hpre : ∀ x ∈ pre, x ∈ b0 := fun x hx => hb x (liveCalls_sub ((hmem x).mp hx))
+        have := foldl_wr1_self (ans := rd.ans) (res := (afterLocate b0 rd batch st).res) hpre
+          (by simp [hl]) ((hmem c).mpr hc)
+        rw [hans] at this; exact this
+    · rw [hall] at hg; cases hg
+
+/-- **First pass of a valid batch**: some call is answered with a `RetryableError` (so the pass
+backs off, for `backoffStart`) and every call answered with an error that is retried has a context of
+its own that the sleep sees done. Then nothing is queued in any later round, every call answered with
+an error keeps it in its slot, and `allOK = false`. -/
+theorem sleep_ends_when_all_retries_gave_up {info : Info} {batch : List Nat} {rd : Round}
+    {rest : List Round} {R : Result}
+    (hv : ValidBatch info batch) (h : sendBatch info batch (rd :: rest) = .ok R)
+    (hloc : ∀ c ∈ batch, locOk rd c = true ∨ rd.locate c = .error (.ownCtx c))
+    (hcancel : rd.cancel = .none)
+    (hbk : ∃ c ∈ liveCalls rd batch, isBackoff (rd.ans c) = true)
+    (hgone : ∀ c ∈ liveCalls rd batch, isRetry (rd.ans c) = true → rd.gaveUp c = true) :
+    R.events = queueEvents 0 rd (liveCalls rd batch) ++
+      [.sleepLeft (Gen.Backoff.sleepFor Gen.Backoff.backoffStart)] ∧
+    (∀ r c, ¬ Sent R.events (r + 1) c) ∧
+    R.allOK = false ∧ R.interrupted = false ∧
+    ∀ (i : Nat) (hi : i < batch.length) (cls : Cls) (t : Nat),
+      batch[i] ∈ liveCalls rd batch → rd.ans batch[i] = .fail cls t →
+      R.res[i]'(by rw [sendBatch_length h]; exact hi) = ⟨none, some (.ans cls t)⟩ := by
+  have hne : batch ≠ [] := by
+    obtain ⟨c, hc, _⟩ := hbk
+    intro h0; subst h0
+    exact absurd (liveCalls_sub hc) (by simp)
+  have hlen := sendBatch_length h
+  have h' := h
+  rw [sendBatch_valid hne hv] at h'
+  have hany : batch.any (fun c => !locOk rd c && !ownGone rd c) = false := by
+    rw [List.any_eq_false]
+    intro c hc
+    rcases hloc c hc with h1 | h1
+    · simp [h1]
+    · simp [ownGone_of_locate h1]
+  obtain ⟨hev, hok, hint, hslots⟩ :=
+    sleep_ends_when_all_retries_gave_up_pass h' (fun c hc => hc) (st0_length info batch) hany hcancel
+      (Or.inl hbk) backoffStart_ne_zero hgone
+  have hev' : R.events = queueEvents 0 rd (liveCalls rd batch) ++
+      [.sleepLeft (Gen.Backoff.sleepFor Gen.Backoff.backoffStart)] := by simpa [st0] using hev
+  refine ⟨hev', ?_, hok, hint, ?_⟩
+  · intro r c hs
+    rw [hev'] at hs
+    rcases sent_append.mp hs with hs | hs
+    · have := (sent_queueEvents.mp hs).1; omega
+    · exact absurd hs (not_sent_sleepCut (by simp [isSleepCut]))
+  · intro i hi cls t hlive hans
+    have := hslots batch[i] hlive cls t hans
+    rwa [getSlot_eq_getElem hv.1 hlen i hi] at this
+
+/-- **Every round**: when a call queued in round `r` is answered with a `RetryableError` (the round
+backs off) and something is queued in round `r + 1`, then some call queued in round `r` was answered
+with an error that is retried and had not given up when the back-off sleep ended: if all of them
+have, nothing is sent any more. -/
+theorem resent_after_backoff_needs_waiter {info : Info} {batch : List Nat} {rounds : List Round}
+    {R : Result} (h : sendBatch info batch rounds = .ok R) {r c : Nat} {rd : Round}
+    (hrd : rounds[r]? = some rd) (hs : Sent R.events (r + 1) c)
+    (hbk : ∃ d t, Sent R.events r d ∧ rd.ans d = .fail .retryable t) :
+    ∃ d, Sent R.events r d ∧ isRetry (rd.ans d) = true ∧ rd.gaveUp d = false := by
+  by_cases hbad : batch = [] ∨ ¬ ValidBatch info batch
+  · rw [sendBatch_unsent h hbad] at hs; exact absurd hs sent_nil
+  · have hne : batch ≠ [] := fun h0 => hbad (Or.inl h0)
+    have hv : ValidBatch info batch := Classical.byContradiction fun hv => hbad (Or.inr hv)
+    rw [sendBatch_valid hne hv] at h
+    obtain ⟨d, t, hsd, hans⟩ := hbk
+    exact loop_backoff_waiter h (fun c hc => hc) (st0_length info batch) backoffStart_ne_zero
+      (new := R.events) (by simp [st0]) c r rd (Nat.zero_le _) hs (by simpa using hrd)
+      ⟨d, hsd, by rw [hans]; rfl⟩
+
+/-- non-vacuity: call 0 succeeds, call 1 gets a RetryableError and its own context is done inside
+the back-off sleep: `SendBatch` returns from the sleep, the scripted second round never happens -/
+def gaveRound0 : Round :=
+  ⟨fun _ => .ok 0, fun c => if c = 0 then .ok 11 else .fail .retryable 12, [], .none, fun c => c == 1⟩
+
+example : sendBatch ⟨fun _ => 0, fun _ => true⟩ [0, 1]
+    [gaveRound0, ⟨fun _ => .ok 0, fun _ => .ok 13, [], .none, fun _ => false⟩]
+    = .ok ⟨[⟨some 11, none⟩, ⟨none, some (.ans .retryable 12)⟩], false,
+           [.queue 0 0 [0, 1], .sleepLeft 16000000], false⟩ := by decide
+
+example : ∃ c ∈ liveCalls gaveRound0 [0, 1], isBackoff (gaveRound0.ans c) = true :=
+  ⟨1, by decide, by decide⟩
+
+example : ∀ c ∈ liveCalls gaveRound0 [0, 1], isRetry (gaveRound0.ans c) = true → gaveRound0.gaveUp c = true := by
+  decide
+
+/-- two calls to retry, only call 1 has given up (call 0 has no context of its own, or it is alive):
+the sleep runs to its end, both are queued again; call 1 then ends with its own-context error -/
+example : sendBatch ⟨fun _ => 0, fun _ => true⟩ [0, 1]
+    [⟨fun _ => .ok 0, fun c => .fail .retryable (12 + c), [], .none, fun c => c == 1⟩,
+     ⟨fun _ => .ok 0, fun c => if c = 0 then .ok 13 else .ownDone, [], .none, fun _ => false⟩]
+    = .ok ⟨[⟨some 13, none⟩, ⟨none, some (.ownCtx 1)⟩], false,
+           [.queue 0 0 [0, 1], .sleep 16000000, .queue 1 0 [0, 1]], false⟩ := by decide
+
+/-- a later back-off: the first sleep completes (nobody has given up yet), the second one is left -/
+example : sendBatch ⟨fun _ => 0, fun _ => true⟩ [0]
+    [⟨fun _ => .ok 0, fun _ => .fail .retryable 1, [], .none, fun _ => false⟩,
+     ⟨fun _ => .ok 0, fun _ => .fail .retryable 2, [], .none, fun _ => true⟩,
+     ⟨fun _ => .ok 0, fun _ => .ok 3, [], .none, fun _ => false⟩]
+    = .ok ⟨[⟨none, some (.ans .retryable 2)⟩], false,
+           [.queue 0 0 [0], .sleep 16000000, .queue 1 0 [0], .sleepLeft 32000000], false⟩ := by decide
+
+/-- not-serving errors only: the first retries are immediate (no sleep to leave, whoever has given
+up); the sleep that the third one in a row asks for is left -/
+example : sendBatch ⟨fun _ => 0, fun _ => true⟩ [0]
+    [⟨fun _ => .ok 0, fun _ => .fail .nsre 1, [], .none, fun _ => true⟩,
+     ⟨fun _ => .ok 0, fun _ => .fail .nsre 2, [], .none, fun _ => true⟩,
+     ⟨fun _ => .ok 0, fun _ => .fail .nsre 3, [], .none, fun _ => true⟩,
+     ⟨fun _ => .ok 0, fun _ => .ok 4, [], .none, fun _ => false⟩]
+    = .ok ⟨[⟨none, some (.ans .nsre 3)⟩], false,
+           [.queue 0 0 [0], .queue 1 0 [0], .queue 2 0 [0], .sleepLeft 16000000], false⟩ := by decide
+
 /-! ### Regression witness (the defect repaired by commit 862de01)
 
 One call, one region client; the batch context is seen done by the select that waits for the call
 and the call's successful answer is there when the non-blocking sweep reads the channel. Before the
 repair `SendBatch` returned `([{Msg: 7, Error: nil}], allOK = false)`; now `allOK = true`. -/
 def witnessInfo : Info := ⟨fun _ => 0, fun _ => true⟩
-def witnessRound : Round := ⟨fun _ => .ok 0, fun _ => .ok 7, [], .wait 0⟩
+def witnessRound : Round := ⟨fun _ => .ok 0, fun _ => .ok 7, [], .wait 0, fun _ => false⟩
 
 example : sendBatch witnessInfo [0] [witnessRound]
     = .ok ⟨[⟨some 7, none⟩], true, [.queue 0 0 [0]], true⟩ := by decide
 
 /-- an interrupted wait whose sweep finds nothing: context error, `allOK = false` -/
-example : sendBatch witnessInfo [0] [⟨fun _ => .ok 0, fun _ => .silent, [], .wait 0⟩]
+example : sendBatch witnessInfo [0] [⟨fun _ => .ok 0, fun _ => .silent, [], .wait 0, fun _ => false⟩]
     = .ok ⟨[⟨none, some .batchCtx⟩], false, [.queue 0 0 [0]], true⟩ := by decide
 
 /-! ### Non-vacuity: the hypotheses are satisfiable by non-trivial runs -/
@@ -303,8 +481,8 @@ example : sendBatch witnessInfo [0] [⟨fun _ => .ok 0, fun _ => .silent, [], .w
 /-- two calls on two region clients; call 0 succeeds, call 1 gets NotServingRegion, is retried and
 its re-location is cancelled: the success is kept, the other call ends with the location error -/
 def exInfo : Info := ⟨fun _ => 0, fun _ => true⟩
-def exRound0 : Round := ⟨fun c => .ok c, fun c => if c = 0 then .ok 11 else .fail .nsre 12, [1, 0], .none⟩
-def exRound1 : Round := ⟨fun c => if c = 1 then .error .batchCtx else .ok 0, fun _ => .silent, [], .none⟩
+def exRound0 : Round := ⟨fun c => .ok c, fun c => if c = 0 then .ok 11 else .fail .nsre 12, [1, 0], .none, fun _ => false⟩
+def exRound1 : Round := ⟨fun c => if c = 1 then .error .batchCtx else .ok 0, fun _ => .silent, [], .none, fun _ => false⟩
 
 example : sendBatch exInfo [0, 1] [exRound0, exRound1]
     = .ok ⟨[⟨some 11, none⟩, ⟨none, some .batchCtx⟩], false,
@@ -320,8 +498,8 @@ example : Sent [Event.queue 0 1 [1], Event.queue 0 0 [0]] 0 0 := ⟨0, [0], by s
 failed alone (not queued, not retried), call 0 succeeds, call 2 gets NotServingRegion, is retried
 alone and succeeds; `allOK = false` because of call 1 only -/
 def ownRound0 : Round :=
-  ⟨fun c => if c = 1 then .error (.ownCtx 1) else .ok 0, fun c => if c = 0 then .ok 11 else .fail .nsre 12, [], .none⟩
-def ownRound1 : Round := ⟨fun _ => .ok 0, fun _ => .ok 13, [], .none⟩
+  ⟨fun c => if c = 1 then .error (.ownCtx 1) else .ok 0, fun c => if c = 0 then .ok 11 else .fail .nsre 12, [], .none, fun _ => false⟩
+def ownRound1 : Round := ⟨fun _ => .ok 0, fun _ => .ok 13, [], .none, fun _ => false⟩
 
 example : sendBatch exInfo [0, 1, 2] [ownRound0, ownRound1]
     = .ok ⟨[⟨some 11, none⟩, ⟨none, some (.ownCtx 1)⟩, ⟨some 13, none⟩], false,
@@ -337,18 +515,18 @@ example : ∀ c ∈ [0, 1, 2], locOk ownRound0 c = true ∨ ownRound0.locate c =
 /-- … in a retry round: call 1 is retried, its own context is done by then and its region is not
 available: it ends with its own-context error instead of waiting; call 0 keeps its success -/
 example : sendBatch exInfo [0, 1]
-    [exRound0, ⟨fun c => if c = 1 then .error (.ownCtx 1) else .ok 0, fun _ => .silent, [], .none⟩]
+    [exRound0, ⟨fun c => if c = 1 then .error (.ownCtx 1) else .ok 0, fun _ => .silent, [], .none, fun _ => false⟩]
     = .ok ⟨[⟨some 11, none⟩, ⟨none, some (.ownCtx 1)⟩], false,
            [.queue 0 1 [1], .queue 0 0 [0]], false⟩ := by decide
 
 /-- … next to a call whose location fails for another reason: the batch ends, both errors reported -/
 example : sendBatch exInfo [0, 1]
-    [⟨fun c => if c = 1 then .error (.ownCtx 1) else .error .closed, fun _ => .silent, [], .none⟩]
+    [⟨fun c => if c = 1 then .error (.ownCtx 1) else .error .closed, fun _ => .silent, [], .none, fun _ => false⟩]
     = .ok ⟨[⟨none, some .closed⟩, ⟨none, some (.ownCtx 1)⟩], false, [], false⟩ := by decide
 
 /-- a run with a retry after back-off that ends `allOK = true`, not interrupted -/
 example : sendBatch exInfo [0]
-    [⟨fun _ => .ok 0, fun _ => .fail .retryable 1, [], .none⟩, ⟨fun _ => .ok 0, fun _ => .ok 2, [], .none⟩]
+    [⟨fun _ => .ok 0, fun _ => .fail .retryable 1, [], .none, fun _ => false⟩, ⟨fun _ => .ok 0, fun _ => .ok 2, [], .none, fun _ => false⟩]
     = .ok ⟨[⟨some 2, none⟩], true, [.queue 0 0 [0], .sleep 16000000, .queue 1 0 [0]], false⟩ := by decide
 
 /-- Regenerated from rpc.go (`findClients`): the model's `Round.locate` is a function of the call —
